@@ -757,8 +757,9 @@ func (p *pkg) gatewayFacts() {
 		for _, s := range ex.Body.List {
 			if r, ok := s.(*ast.RangeStmt); ok && exprName(r.X) == "g.responseMiddlewares" {
 				loopUnconditional = true
+				// the body of the loop is exactly: a failing middleware ends the request with (nil, err)
 				t := p.norm(r.Body)
-				if strings.Contains(t, "iferr:=ware(executionContext,result);err!=nil{") && strings.Contains(t, "returnnil,err") {
+				if t == "{iferr:=ware(executionContext,result);err!=nil{returnnil,err}}" {
 					errAborts = true
 				}
 			}
@@ -772,6 +773,38 @@ func (p *pkg) gatewayFacts() {
 	emit("def mw : MwFacts :=")
 	emit("  { scrubFirst := %s, appendInOrder := %s, loopUnconditional := %s, errorAborts := %s, returnsResultAndExecErr := %s }",
 		leanBool(scrubFirst), leanBool(splitOK), leanBool(loopUnconditional), leanBool(errAborts), leanBool(returnsExecErr))
+
+	// how New takes its options (model Nw): each option writes its own field, WithMiddlewares adds, and the planner
+	// is handed factory and priorities after the loop over the options
+	optBody := func(name string) string {
+		if f := p.funcs[name]; f != nil {
+			return p.norm(f.Body)
+		}
+		return ""
+	}
+	mwAdds := optBody("WithMiddlewares") == "{returnfunc(g*Gateway){g.middlewares=append(g.middlewares,middlewares...)}}"
+	plannerSets := optBody("WithPlanner") == "{returnfunc(g*Gateway){g.planner=p}}"
+	prioSets := optBody("WithLocationPriorities") == "{returnfunc(g*Gateway){g.locationPriorities=priorities}}"
+	factorySets := optBody("WithQueryerFactory") == "{returnfunc(g*Gateway){g.queryerFactory=factory}}"
+	handOver := false
+	if nw != nil {
+		// statement order inside New: the loop over the options, then the two hand-overs
+		loopAt, facAt, prioAt := -1, -1, -1
+		for k, st := range nw.Body.List {
+			t := p.norm(st)
+			switch {
+			case strings.HasPrefix(t, "for_,config:=rangeconfigs{config(gateway)}"):
+				loopAt = k
+			case t == "ifgateway.queryerFactory!=nil{ifplanner,ok:=gateway.planner.(PlannerWithQueryerFactory);ok{gateway.planner=planner.WithQueryerFactory(gateway.queryerFactory)}}":
+				facAt = k
+			case t == "ifgateway.locationPriorities!=nil{ifplanner,ok:=gateway.planner.(PlannerWithLocationPriorities);ok{gateway.planner=planner.WithLocationPriorities(gateway.locationPriorities)}}":
+				prioAt = k
+			}
+		}
+		handOver = loopAt >= 0 && facAt > loopAt && prioAt > loopAt
+	}
+	emit("def newOpts : NewOptsFacts := { middlewaresAdd := %s, plannerSets := %s, prioritiesSet := %s, factorySets := %s, handOverAfterOptions := %s }",
+		leanBool(mwAdds), leanBool(plannerSets), leanBool(prioSets), leanBool(factorySets), leanBool(handOver))
 
 	// plan selection in Execute
 	single := false
